@@ -104,6 +104,14 @@ class Eval:
             return t
         if k == "Int":
             return I(int(e["v"]))
+        if k == "Flt":
+            v = float(e["v"])
+            return I(int(v)) if v == int(v) else S(repr(v))
+        if k == "Un" and e.get("op") in ("-", "+") and e.get("c"):
+            t_ = self.term(e["c"][0], env)
+            if t_ is None:
+                return None
+            return mul(I(-1), t_) if e["op"] == "-" else t_
         if k == "Ref" and e.get("n") in env:
             return env[e["n"]]
         el = self.element(e)
@@ -111,6 +119,13 @@ class Eval:
             return env.get(el, S("?" + el))
         if k == "Ref" and "ev" in e:
             return I(int(e["ev"]))
+        if k == "OpCall" and e.get("op") in ("+", "-", "*", "/", "%", "<", ">", "<=", ">=", "==", "!=") and len(e.get("a") or []) == 2 and "callee" in e and (e["callee"] or {}).get("k") == "ULookup":
+            # an operator in a template whose operand types are not known yet: the built-in arithmetic meaning is assumed
+            e = {"k": "Bin", "op": e["op"], "c": e["a"]}
+            k = "Bin"
+        elif k == "OpCall" and e.get("op") in ("-", "+") and len(e.get("a") or []) == 1 and "callee" in e and (e["callee"] or {}).get("k") == "ULookup":
+            t_ = self.term(e["a"][0], env)
+            return None if t_ is None else (mul(I(-1), t_) if e["op"] == "-" else t_)
         if k == "Bin" and not e.get("asg"):
             a, b = self.term(e["c"][0], env), self.term(e["c"][1], env)
             if a is None or b is None:
